@@ -223,6 +223,8 @@ def info(case):
         classes.append("has-count")
     if any(o.get("rrule") and o["rrule"].get("interval") for o in defn["obs"]):
         classes.append("has-interval")
+    if len(defn["obs"]) >= 2 and len({o.get("name") for o in defn["obs"]}) == 1 and defn["obs"][0].get("name"):
+        classes.append("same-tzname-for-all-observances")
     if any(not o.get("name") for o in defn["obs"]):
         classes.append("no-tzname")
     if case.get("unchained"):
@@ -335,6 +337,9 @@ def definitions(draw):
             ob["from"] = max(-12 * 3600, min(14 * 3600, ob["from"] + draw(st.sampled_from([0, 3600, -3600, 1800]))))
     if not any(o["kind"] == "STANDARD" for o in obs):
         obs[0]["kind"] = "STANDARD"      # RFC: at least one; and the pytz path needs a standard observance to compute DST deltas
+    if names and draw(st.integers(0, 5)) == 0:
+        for ob in obs:      # one abbreviation for every observance (e.g. "BST" for British Standard and British Summer Time, "+07")
+            ob["name"] = "LOCAL"
     defn = {"tzid": draw(st.sampled_from(["Custom/One", "verif-zone", "X Y"])), "obs": obs}
     times = [t for t, _ in Z.utc_onsets(defn)]
     assume(len(times) == len(set(times)))
